@@ -1,5 +1,93 @@
-/- C11 — property theorems only (helper lemmas live in `Rooc/Proofs`). -/
+/-
+C11 — Formatting preserves meaning and is idempotent.  PROPERTY THEOREMS ONLY.
+
+Vocabulary: `fmtExp` / `PModel.text` (`Rooc/Syntax/Format.lean`) is the executable port of the printers
+behind `RoocParser::format`, diffed byte-for-byte against the real formatter on every run; `fmtToks` is the
+same printer as tokens (the driver checks on every case that lexing `fmtExp e` gives `fmtToks e`);
+`parseToks` is the parser model of C09; `fmtToksFixed` is the printer after `fixes/C11-parens.diff`.
+The theorems are about the expression sub-language (the objective, both sides of every constraint,
+constant values and domain bounds are such expressions); the program skeleton, declarations, blocks and
+iterations are covered by the correspondence run and the implementation-side re-parse only.
+-/
 import Lean
-import Rooc.Syntax.Format
+import Rooc.Proofs.Format
 namespace Rooc.Props.C11
+open Rooc Rooc.Syntax Rooc.Syntax.Doc Rooc.Syntax.Proofs
+
+/-- The REGENERATED tables of `BinOp::precedence` / `is_left_associative` (math/operators.rs), which
+drive the printer, are the documented ones. -/
+theorem printer_table_documented (o : BinOp) :
+    Gen.binPrec o = docLevel o ∧ Gen.binLeftAssoc o = !(docRightAssoc o) :=
+  ⟨prec_documented o, assoc_documented o⟩
+
+/-- **`parse (format t) = t`** — proved where the printer emits every parenthesis the grammar needs
+(`roundTrips`, a decidable predicate the driver evaluates): every tree without an operand of EQUAL
+precedence on the regrouping side. -/
+theorem parse_format_partial (t : PExp) (h : WF t) (hr : roundTrips t = true) :
+    parseToks (fmtToks t) = .ok t := by
+  obtain ⟨items, hk, _⟩ := fmt_tk t h hr
+  exact parse_tk hk
+
+example : WF (.bin .sub (.bin .sub (.var "x") (.var "y")) (.bin .mul (.int 2) (.un .neg (.bin .add (.var "z") (.int 1)))))
+    ∧ roundTrips (.bin .sub (.bin .sub (.var "x") (.var "y")) (.bin .mul (.int 2) (.un .neg (.bin .add (.var "z") (.int 1))))) = true := by
+  refine ⟨?_, by decide⟩
+  simp [WF]; decide
+
+/-- … and it is FALSE outside: `x - (y - z)` is printed `x - y - z`, which is read as `(x - y) - z`. -/
+theorem parse_format_counterexample :
+    WF (.bin .sub (.var "x") (.bin .sub (.var "y") (.var "z")))
+      ∧ roundTrips (.bin .sub (.var "x") (.bin .sub (.var "y") (.var "z"))) = false
+      ∧ parseToks (fmtToks (.bin .sub (.var "x") (.bin .sub (.var "y") (.var "z"))))
+          = .ok (.bin .sub (.bin .sub (.var "x") (.var "y")) (.var "z")) := by
+  refine ⟨by simp [WF]; decide, by decide, ?_⟩
+  have hx : Atom (.var "x") (.word "x") := Atom.var "x" (by decide) (by decide)
+  have hy : Atom (.var "y") (.word "y") := Atom.var "y" (by decide) (by decide)
+  have hz : Atom (.var "z") (.word "z") := Atom.var "z" (by decide) (by decide)
+  have := parse_tk (Tk.bin (Tk.bin (Tk.atom hx) (Tk.atom hy) (Or.inl rfl) (Or.inl rfl) (by simp [binToks] : Tok.minus ∈ binToks .sub))
+    (Tk.atom hz) (Or.inr (by decide)) (Or.inl rfl) (by simp [binToks] : Tok.minus ∈ binToks .sub))
+  simpa [fmtToks, printsParen, Gen.binPrec, binKwTok] using this
+
+/-- The needed-but-not-printed parentheses are EXACTLY these (parent, child) pairs on the right …
+(the finite table behind the known findings `paren-dropped:<parent>/<child>/right`) -/
+theorem dropped_right_table (p c : BinOp) (x y : PExp) :
+    (needParenRight p (.bin c x y) = true ∧ printsParen (Gen.binPrec p) (.bin c x y) = false) ↔
+      (p, c) ∈ [(BinOp.add, BinOp.add), (.add, .sub), (.sub, .add), (.sub, .sub), (.mul, .mul), (.mul, .div),
+                (.div, .mul), (.div, .div), (.and, .and), (.or, .or), (.xor, .xor), (.iff, .iff), (.iff, .implies)] := by
+  simp only [needParenRight, printsParen]
+  cases p <;> cases c <;> decide
+
+/-- … and these on the left (`paren-dropped:<parent>/<child>/left`). -/
+theorem dropped_left_table (p c : BinOp) (x y : PExp) :
+    (needParenLeft p (.bin c x y) = true ∧ printsParen (Gen.binPrec p) (.bin c x y) = false) ↔
+      (p, c) ∈ [(BinOp.implies, BinOp.implies), (.iff, .implies)] := by
+  simp only [needParenLeft, printsParen]
+  cases p <;> cases c <;> decide
+
+/-- `format (parse (format t)) = format t` on the same region. -/
+theorem format_idem_partial (t : PExp) (h : WF t) (hr : roundTrips t = true) :
+    (parseToks (fmtToks t)).map fmtToks = .ok (fmtToks t) := by
+  rw [parse_format_partial t h hr]; rfl
+
+/-- **The repair is right**: with `fixes/C11-parens.diff` (parentheses also around a right operand of equal
+precedence under a left-associative operator and around a right-associative left operand of equal
+precedence) `parse (format t) = t` holds for EVERY tree of the sub-language … -/
+theorem parse_format_fixed (t : PExp) (h : WF t) : parseToks (fmtToksFixed t) = .ok t := by
+  obtain ⟨items, hk, _⟩ := fmtFixed_tk t h
+  exact parse_tk hk
+
+/-- … and formatting is idempotent. -/
+theorem format_idem_fixed (t : PExp) (h : WF t) :
+    (parseToks (fmtToksFixed t)).map fmtToksFixed = .ok (fmtToksFixed t) := by
+  rw [parse_format_fixed t h]; rfl
+
+example : WF (.bin .sub (.var "x") (.bin .sub (.var "y") (.var "z"))) := by simp [WF]; decide
+
+/-- the repaired rule never adds parentheses the grammar does not need on the operands the old rule left
+bare: it is the old rule plus exactly the two tables above -/
+theorem fixed_rule_is_minimal (p c : BinOp) (x y : PExp) :
+    (printsParenFixed p true (.bin c x y) = (printsParen (Gen.binPrec p) (.bin c x y) || needParenRight p (.bin c x y)))
+    ∧ (printsParenFixed p false (.bin c x y) = (printsParen (Gen.binPrec p) (.bin c x y) || needParenLeft p (.bin c x y))) := by
+  simp only [printsParenFixed, printsParen, needParenRight, needParenLeft]
+  cases p <;> cases c <;> decide
+
 end Rooc.Props.C11
